@@ -198,7 +198,7 @@ def run(prop, tier):
     # handlers must run concurrently with the rest: start them inside the same par
     ops = [{"op": "fan_start"}, {"op": "par", "x": {"actors": actors}}, {"op": "fan_stop"}]
     env = dict(vlib.GOENV, GORACE="halt_on_error=0 exitcode=0")
-    robs = vlib.run_cases(rbin, [{"id": "race", "ops": ops}], timeout=120, env=env, tag="c26race")
+    robs = vlib.run_cases(rbin, [{"id": "race", "ops": ops}], timeout=120, env=env, tag="c26race", stderr_tail=4000000)
     stderr = robs.get("_stderr", "")
     o = robs.get(json.dumps("race"))
     import readers
